@@ -1,5 +1,5 @@
 //@unit sm2_key
-//@serves C03 C04 C05 C06 C14 C19
+//@serves C03 C04 C05 C06 C14 C19 C20
 //@source gm-sm2/src/key.rs
 //@assume shim_concat2(a, b) == a ++ b; shim_ne_bytes / shim_u256_eq are (in)equality of byte strings / limb arrays (external_body shims whose body is the replaced std expression)
 //@assume rand::thread_rng().fill_bytes yields CSPRNG bytes: random_u256 is the only source of `csprng` facts (provenance predicate); the rejection loops terminate with probability 1 (exec_allows_no_decreases_clause)
@@ -196,7 +196,7 @@ impl Sm2PublicKey {
         }
     }
 
-//@props C05 C14
+//@props C05 C14 C20
     #[verifier::exec_allows_no_decreases_clause]
     fn encrypt(&self, msg: &[u8], compressed: bool, model: Sm2Model) -> (res: Sm2Result<Vec<u8>>)
         requires pk_ok(*self), 1 <= msg@.len() < 0x1_0000_0000
@@ -274,7 +274,7 @@ impl Sm2PublicKey {
         }
     }
 
-//@props C03 C04
+//@props C03 C04 C20
     fn verify(&self, id: Option<&'static str>, msg: &[u8], sig: &[u8]) -> (res: Sm2Result<()>)
         requires pk_ok(*self), msg@.len() < 0x1000_0000_0000_0000,
             id is Some ==> str_bytes(id->Some_0).len() < 0x1000_0000_0000_0000, str_bytes(DEFAULT_ID).len() < 0x1000_0000_0000_0000,
@@ -290,7 +290,7 @@ impl Sm2PublicKey {
         self.verify_raw(&digest[..], &self.point, sig)
     }
 
-//@props C03 C04
+//@props C03 C04 C20
     fn verify_raw(&self, digest: &[u8], pk: &Point, sig: &[u8]) -> (res: Sm2Result<()>)
         requires valid(*pk), val4(pk.z@) != 0,
         ensures res is Ok ==> sig@.len() == 64 && digest@.len() == 32
@@ -378,7 +378,7 @@ impl Sm2PrivateKey {
         Ok(private_key)
     }
 
-//@props C03 C14
+//@props C03 C14 C20
     fn sign(&self, id: Option<&'static str>, msg: &[u8]) -> (res: Sm2Result<Vec<u8>>)
         requires sk_ok(*self), msg@.len() < 0x1000_0000_0000_0000,
             id is Some ==> str_bytes(id->Some_0).len() < 0x1000_0000_0000_0000, str_bytes(DEFAULT_ID).len() < 0x1000_0000_0000_0000,
@@ -396,7 +396,7 @@ impl Sm2PrivateKey {
         self.sign_raw(&digest[..], &self.d)
     }
 
-//@props C03 C14
+//@props C03 C14 C20
     #[verifier::exec_allows_no_decreases_clause]
     fn sign_raw(&self, digest: &[u8], sk: &U256) -> (res: Sm2Result<Vec<u8>>)
         requires 1 <= val4(sk@) <= N() - 2,
@@ -452,7 +452,7 @@ impl Sm2PrivateKey {
             return Ok(sig);
         }
     }
-//@props C05 C06
+//@props C05 C06 C20
     fn decrypt(
         &self,
         ciphertext: &[u8],
